@@ -84,7 +84,12 @@ func RunFamily(f *Family, o RunOpts) int {
 		harnessErr                                                                                                           string
 	}{outcomes: map[string]bool{}, extra: map[string]int{}}
 	// shards of at most ~60 scenarios: a shard process stays far below its address-space limit
-	shards := max(o.Workers, (len(scns)+59)/60)
+	// (thorough explorations run several thousand cycles per scenario: shards of 10)
+	per := 60
+	if o.Tier == "thorough" {
+		per = 10
+	}
+	shards := max(o.Workers, (len(scns)+per-1)/per)
 	err := engine.RunShardPool(shards, o.Workers, nil, 6*1024*1024, func(w int, line []byte) {
 		var probe map[string]json.RawMessage
 		if json.Unmarshal(line, &probe) != nil {
